@@ -18,7 +18,10 @@
     (D) the "ignoring duplicate" branch of Receive does not drop a partial in state
         received / validated,
     (C) cleanStrays removes a partial only when its companion's version is logged,
-    (M) finalize finds the companion of the version it delivers,
+    (M) finalize finds the companion of the version it delivers — or a staged `.part` /
+        `.full` of the version the companion does describe (still needed after `fix: putting
+        a file away removed the companion of a newer version in progress`, witness
+        `record_sound_needs_finhOk`),
   every companion's ranges were ALL written into the ONE current staged file of its name
   (`.part`, else `.full`, else `.wait`), or the companion's version (name, hash) is already in
   the receive log (a left-over of a delivered version: crash windows of finalize, cleanStrays
@@ -403,27 +406,265 @@ def witFinEvs : List Ev :=
    .op (.prepare "a" 4 2), .op (.recvOpen 2 "a"), .op (.recvWrite 2 0 [1, 2] 2),
    .op (.record "a" ⟨"", "", 4, "Y"⟩ 0 2 2)]
 
-/-- (M) / `record_kept` at the state-machine level is violated: finalize of the OLDER
-    version removes `<a>.cmp`, which by then records the acknowledged part `[0,2)` of the
-    NEWER version "Y" (neither complete nor replaced by a different version). The partial
-    stays without record: the sender has to send `[0,2)` again — loss of progress, no
-    corruption. -/
-theorem finalize_drops_live_record :
+/-- finalize(file) BEFORE `fix: putting a file away removed the companion of a newer version
+    in progress` (putFileAway removed `<n>.cmp` unconditionally: `Prim.rmCmp n` where the
+    repaired code has `Prim.rmCmpIf n e.hash`); kept to state the defect the commit repairs. -/
+def finalizeEffectsOrig (s : State) (n : Name) (e : Entry) (now : Int) : List Prim :=
+  [Prim.lockAdd n] ++
+  (if stateOf s.mem n ≠ some .validated ∨ (s.mem.cache n).map (·.hash) ≠ some e.hash then []
+   else
+     [Prim.timerDel n, Prim.logAppend ⟨n, e.renamed, e.hash, e.size, now, e.prev⟩] ++
+     (match s.disk.wait n with
+      | none => []
+      | some _ =>
+        let t := targetOf n e.renamed
+        [Prim.renWaitFinal n t] ++
+        toCache s.mem n { e with logged := some now } .finalized now ++
+        [Prim.rmCmp n, Prim.waitTake n] ++
+        (s.mem.wait.filter (fun w => w.1 == n)).map (fun w => Prim.fqPush w.2.1 w.2.2))) ++
+  [Prim.lockDel n]
+
+/-- the finalize handler around `finalizeEffectsOrig` (otherwise `finhEffects`) -/
+def finhEffectsOrig (s : State) (n : Name) (now : Int) : List Prim :=
+  match s.mem.fq.find? (·.1 == n) with
+  | none => []
+  | some (_, e) =>
+    [Prim.fqDel n] ++
+    (if stateOf s.mem n ≠ some .validated then []
+     else match isFileReady s n e now with
+       | .yes => finalizeEffectsOrig s n e now
+       | .park timer e' =>
+         [Prim.timerDel n] ++ (if timer then [Prim.timerSet n] else []) ++ [Prim.waitAdd e'.prev n e'])
+
+/-- the repair changes one primitive: the unconditional removal became conditional -/
+theorem finalizeEffects_vs_orig (s : State) (n : Name) (e : Entry) (now : Int) :
+    finalizeEffects s n e now =
+      (finalizeEffectsOrig s n e now).map
+        (fun p => match p with | .rmCmp m => Prim.rmCmpIf m e.hash | q => q) := by
+  unfold finalizeEffects finalizeEffectsOrig
+  have htc : ∀ (m : Mem) (e' : Entry) (st : FState),
+      (toCache m n e' st now).map (fun p => match p with | .rmCmp m => Prim.rmCmpIf m e.hash | q => q) =
+        toCache m n e' st now := by
+    intro m e' st
+    unfold toCache
+    simp only [List.map_append, List.map_cons, List.map_nil]
+    congr 1
+    · congr 1
+      split <;> rfl
+    · split <;> rfl
+  by_cases hcond : stateOf s.mem n ≠ some .validated ∨ (s.mem.cache n).map (·.hash) ≠ some e.hash
+  · simp only [if_pos hcond]; rfl
+  · simp only [if_neg hcond]
+    cases hw : s.disk.wait n with
+    | none => rfl
+    | some i =>
+      simp only [List.map_append, List.map_cons, List.map_nil, htc, List.map_map]
+      congr 6
+
+/-- (M) / `record_kept` at the state-machine level WAS violated (the defect; repaired in
+    /repo): finalize of the OLDER version removed `<a>.cmp`, which by then recorded the
+    acknowledged part `[0,2)` of the NEWER version "Y" (neither complete nor replaced by a
+    different version). The partial stayed without record: the sender had to send `[0,2)`
+    again — loss of progress, no corruption. -/
+theorem finalize_drops_live_record_orig :
     let s := runEvs witH init witFinEvs
-    let s' := step witH s (.op (.finh "a" 5))
+    let s' := run s (finhEffectsOrig s "a" 5)
     (s.disk.cmp "a").map (fun c => (c.hash, c.parts)) = some ("Y", [⟨0, 2⟩]) ∧
     s'.disk.cmp "a" = none ∧ s'.disk.part "a" = some 1 ∧ s'.disk.written 1 = [⟨0, 2⟩] ∧
     s'.disk.final "a" = some 0 := by
   decide
 
-/-! ## non-vacuity: an ordinary transfer with a crash inside `record` is an OK run -/
+/-- … and the repaired finalize delivers the older version and leaves the companion of the
+    newer one, with its partial, alone -/
+theorem finalize_keeps_live_record :
+    let s := runEvs witH init witFinEvs
+    let s' := step witH s (.op (.finh "a" 5))
+    (s.disk.cmp "a").map (fun c => (c.hash, c.parts)) = some ("Y", [⟨0, 2⟩]) ∧
+    (s'.disk.cmp "a").map (fun c => (c.hash, c.parts)) = some ("Y", [⟨0, 2⟩]) ∧
+    s'.disk.part "a" = some 1 ∧ s'.disk.written 1 = [⟨0, 2⟩] ∧
+    s'.disk.final "a" = some 0 ∧ FinhOk s "a" := by
+  refine ⟨by decide, by decide, by decide, by decide, by decide, ?_⟩
+  intro x _ c _ hp
+  have : (runEvs witH init witFinEvs).disk.part "a" = some 1 := by decide
+  rw [this] at hp; cases hp
 
+/-! ### the finalize handler keeps every companion of another version (all states) -/
+
+/-- primitives that cannot remove or replace the companion `c` of `n` (`h` = `c.hash`) -/
+def cmpSafe (n : Name) (h : String) : Prim → Bool
+  | .rmCmp m => m != n
+  | .cmpCommit m _ => m != n
+  | .rmCmpIf m h' => m != n || h' != h
+  | _ => true
+
+theorem cmpSafe_applyDisk (d : Disk) (p : Prim) (n : Name) (c : Cmp) (hc : d.cmp n = some c)
+    (hs : cmpSafe n c.hash p = true) : (applyDisk d p).cmp n = some c := by
+  cases p with
+  | rmCmp m =>
+    have hnm : n ≠ m := by intro h; subst h; simp [cmpSafe] at hs
+    simpa [applyDisk, upd_other _ _ _ _ hnm] using hc
+  | cmpCommit m now =>
+    have hnm : n ≠ m := by intro h; subst h; simp [cmpSafe] at hs
+    simp only [applyDisk]
+    split
+    · simpa [upd_other _ _ _ _ hnm] using hc
+    · exact hc
+  | rmCmpIf m h' =>
+    by_cases hnm : n = m
+    · subst hnm
+      have hh : ¬ c.hash = h' := by
+        intro h; subst h; simp [cmpSafe] at hs
+      simp [applyDisk, hc, hh]
+    · simp only [applyDisk]
+      split
+      · split
+        · simpa [upd_other _ _ _ _ hnm] using hc
+        · exact hc
+      · exact hc
+  | _ => simp only [applyDisk] <;> (try split) <;> exact hc
+
+theorem cmpSafe_run (n : Name) (c : Cmp) (ps : List Prim) (hs : ps.all (cmpSafe n c.hash) = true) :
+    ∀ s : State, s.disk.cmp n = some c → (run s ps).disk.cmp n = some c := by
+  induction ps with
+  | nil => intro s h; simpa using h
+  | cons p ps ih =>
+    intro s h
+    simp only [List.all_cons, Bool.and_eq_true] at hs
+    exact ih hs.2 _ (cmpSafe_applyDisk s.disk p n c h hs.1)
+
+theorem all_cut (q : Prim → Bool) (k : Nat) (ps : List Prim) (h : ps.all q = true) :
+    (cut k ps).all q = true := by
+  obtain ⟨qs, hq⟩ := cut_prefix k ps
+  rw [hq, List.all_append, Bool.and_eq_true] at h
+  exact h.1
+
+theorem toCache_cmpSafe (n' : Name) (h : String) (m : Mem) (n : Name) (e : Entry) (st : FState)
+    (now : Int) : (toCache m n e st now).all (cmpSafe n' h) = true := by
+  unfold toCache
+  simp only [List.all_append, Bool.and_eq_true]
+  refine ⟨⟨?_, by simp [cmpSafe]⟩, ?_⟩ <;> split <;> simp [cmpSafe]
+
+/-- `finalize` of the item `e` of `n` is harmless for the companion `c` of `m` unless it is the
+    companion of `n` itself with the item's hash -/
+theorem finalize_cmpSafe (s : State) (n : Name) (e : Entry) (now : Int) (m : Name) (h : String)
+    (hne : m = n → e.hash ≠ h) : (finalizeEffects s n e now).all (cmpSafe m h) = true := by
+  unfold finalizeEffects
+  simp only [List.all_append, Bool.and_eq_true]
+  refine ⟨⟨by simp [cmpSafe], ?_⟩, by simp [cmpSafe]⟩
+  split
+  · rfl
+  · simp only [List.all_append, Bool.and_eq_true]
+    refine ⟨by simp [cmpSafe], ?_⟩
+    split
+    · rfl
+    · simp only [List.all_append, Bool.and_eq_true, List.all_map]
+      refine ⟨⟨⟨by simp [cmpSafe], toCache_cmpSafe _ _ _ _ _ _ _⟩, ?_⟩, ?_⟩
+      · simp only [List.all_cons, List.all_nil, Bool.and_true, Bool.and_eq_true]
+        refine ⟨?_, by simp [cmpSafe]⟩
+        simp only [cmpSafe, Bool.or_eq_true, bne_iff_ne, ne_eq]
+        by_cases hnm : n = m
+        · exact Or.inr (hne hnm.symm)
+        · exact Or.inl hnm
+      · simp only [List.all_eq_true]
+        intro w _; rfl
+
+theorem finh_cmpSafe (s : State) (n : Name) (now : Int) (m : Name) (h : String)
+    (hne : m = n → ∀ x, s.mem.fq.find? (·.1 == n) = some x → x.2.hash ≠ h) :
+    (finhEffects s n now).all (cmpSafe m h) = true := by
+  unfold finhEffects
+  split
+  · rfl
+  · rename_i k e hfind
+    simp only [List.all_append, Bool.and_eq_true]
+    refine ⟨by simp [cmpSafe], ?_⟩
+    split
+    · rfl
+    · split
+      · exact finalize_cmpSafe s n e now m h (fun hmn => hne hmn _ hfind)
+      · simp only [List.all_append, Bool.and_eq_true]
+        refine ⟨⟨by simp [cmpSafe], ?_⟩, by simp [cmpSafe]⟩
+        split <;> simp [cmpSafe]
+
+/-- `finalize_keeps_other_version` (what the repair establishes, all states, every crash
+    point): the finalize handler of `n` leaves every companion in place — of any other name,
+    and of `n` itself when it records a version (hash) other than the one being put away. -/
+theorem finalize_keeps_other_version (H : Body → String) (s : State) (n : Name) (now : Int)
+    (m : Name) (c : Cmp) (hc : s.disk.cmp m = some c)
+    (hne : m = n → ∀ x, s.mem.fq.find? (·.1 == n) = some x → x.2.hash ≠ c.hash) :
+    (step H s (.op (.finh n now))).disk.cmp m = some c ∧
+    ∀ k, (step H s (.cutOp k (.finh n now))).disk.cmp m = some c := by
+  have hall := finh_cmpSafe s n now m c.hash hne
+  refine ⟨cmpSafe_run m c _ hall s hc, ?_⟩
+  intro k
+  exact cmpSafe_run m c _ (all_cut _ k _ hall) s hc
+
+/-- non-vacuity: in `witFinEvs` the queued item of "a" has hash "h", the companion "Y" -/
+example : ∃ c, (runEvs witH init witFinEvs).disk.cmp "a" = some c ∧
+    ∀ x, (runEvs witH init witFinEvs).mem.fq.find? (·.1 == "a") = some x → x.2.hash ≠ c.hash := by
+  refine ⟨⟨"", "", 4, "Y", [⟨0, 2⟩]⟩, by decide, ?_⟩
+  intro x hx
+  have h1 : ((runEvs witH init witFinEvs).mem.fq.find? (·.1 == "a")).map (·.2.hash) = some "h" := by
+    decide
+  have hx' : List.find? (fun x => x.fst == "a") (runEvs witH init witFinEvs).mem.fq = some x := hx
+  rw [hx'] at h1
+  simp only [Option.map_some, Option.some.injEq] at h1
+  rw [h1]; decide
+
+/-- clause (D) of `RecordOk` is void for a name the cache does not know -/
 theorem recordOk_of_unknown (s : State) (n : Name) (m : Meta) (beg fin : Int)
     (hw : ∃ i, Cur s.disk n = some i ∧ (⟨beg, fin⟩ : Rng) ∈ s.disk.written i)
     (hc : s.mem.cache n = none) : RecordOk s n m beg fin := by
   refine ⟨hw, ?_⟩
   intro _ ex hex
   rw [hc] at hex; cases hex
+
+/-- version "h" of `b` is validated and queued for delivery; then a part of a version "Y" is
+    recorded for `b` although no `.part` was prepared (the range `[0,2)` it names was written
+    into the file that is now `<b>.wait`, so clause (R) of `RecordOk`, which speaks about the
+    current staged file, holds) -/
+def witNoPartEvs : List Ev :=
+  [.op (.prepare "b" 2 0), .op (.recvOpen 1 "b"), .op (.recvWrite 1 0 [7, 8] 0),
+   .op (.record "b" ⟨"", "", 2, "h"⟩ 0 2 0), .op (.process "b" 1),
+   .op (.record "b" ⟨"", "", 4, "Y"⟩ 0 2 2)]
+
+/-- (M) cannot be dropped from `record_sound`, also after the repair: every event of
+    `witNoPartEvs` meets its clause (P)/(R)/(D)/(C), only the final `finh` violates (M) — the
+    companion on disk is of version "Y", the item delivered of version "h", and there is no
+    `.part` / `.full`. Finalize moves `<b>.wait` away and (now) keeps the companion, which then
+    describes no staged file and no logged version. (Before the repair the companion was
+    removed a moment later, so the violation lasted for the crash window between the move and
+    the removal only.) The run needs a `record` without a partial, which the real Receive
+    cannot do (it opens `<n>.part` first); with clause (R) restricted to the `.part` the
+    hypothesis (M) may be derivable — not attempted. -/
+theorem record_sound_needs_finhOk :
+    let s := runEvs witH init witNoPartEvs
+    let s' := step witH s (.op (.finh "b" 5))
+    RecReachableOk witH s ∧ ¬ FinhOk s "b" ∧
+    (s'.disk.cmp "b").map (fun c => (c.hash, c.parts)) = some ("Y", [⟨0, 2⟩]) ∧
+    Cur s'.disk "b" = none ∧ ¬ LoggedV s'.disk "b" "Y" := by
+  intro s s'
+  refine ⟨⟨witNoPartEvs, ?_, rfl⟩, ?_, by decide, by decide, ?_⟩
+  · refine ⟨?_, trivial, trivial, ?_, trivial, ?_, trivial⟩
+    · exact Or.inr (Or.inl (by decide))
+    · exact recordOk_of_unknown _ _ _ _ _ ⟨0, by decide, by decide⟩ (by decide)
+    · refine ⟨⟨0, by decide, by decide⟩, ?_⟩
+      intro hcomp
+      revert hcomp; decide
+  · intro h
+    have hx : s.mem.fq.find? (·.1 == "b") =
+        some ("b", { renamed := "", prev := "", hash := "h", size := 2, state := .validated, time := 1 }) := by
+      decide
+    have hc : s.disk.cmp "b" = some ⟨"", "", 4, "Y", [⟨0, 2⟩]⟩ := by decide
+    have := h _ hx _ hc (by decide) (by decide)
+    revert this; decide
+  · rintro ⟨r, hr, _, hh⟩
+    have hlog : s'.disk.log = [⟨"b", "", "h", 2, 5, ""⟩] := by decide
+    rw [hlog] at hr
+    simp at hr
+    subst hr
+    simp at hh
+
+/-! ## non-vacuity: an ordinary transfer with a crash inside `record` is an OK run -/
 
 def okEvs : List Ev :=
   [.op (.prepare "k" 4 0), .op (.recvOpen 1 "k"), .op (.recvWrite 1 0 [1, 2] 0),
